@@ -323,8 +323,16 @@ class Composite:
             if ctx.abort:
                 return
             if ctx.delayed:
-                delayed_fns.append(ctx.delayed)
+                delayed_fns.append((p, ctx.delayed))
             if ctx.past:
                 past_fn = ctx.past
-        ctx.delayed = delayed_fns[0] if delayed_fns else None
+
+        def delayed(i, e, undelayed):
+            # per edge: gamma kernels belong to the chain plugin, plain delays to the ring-buffer / history plugin
+            for p, fn in delayed_fns:
+                is_chain = isinstance(p, ChainPlugin)
+                if (e.spread is not None) == is_chain:
+                    return fn(i, e, undelayed)
+            return delayed_fns[0][1](i, e, undelayed)
+        ctx.delayed = delayed if delayed_fns else None
         ctx.past = past_fn
